@@ -301,7 +301,33 @@ func keys(m map[string]string) []string {
 	return out
 }
 
+// FirstCalls is the menu of the fresh-process call-order check.
+func FirstCalls() []fw.Call {
+	var out []fw.Call
+	pre := goodMod + "@" + goodVers + "/"
+	for i, es := range [][]ent{
+		{{name: pre + "go.mod", content: "module example.com/m\n"}, {name: pre + "a.go", content: "package a\n"}},
+		{{name: pre + "a", content: "x"}, {name: pre + "A", content: "y"}},
+		{{name: pre + "../x", content: "x"}},
+		{{name: pre + "sub/go.mod", content: "module s\n"}, {name: pre + "con", content: "y"}},
+		{{name: "other@v1.0.0/a", content: "x"}},
+	} {
+		i, es := i, es
+		out = append(out, fw.Call{Name: fmt.Sprintf("archive-%d", i), F: func() string {
+			scratch, err := os.MkdirTemp("/dev/shm", "verif-first-")
+			if err != nil {
+				return "no scratch"
+			}
+			defer os.RemoveAll(scratch)
+			msg, class := one(scratch, goodMod, goodVers, es)
+			return msg + "|" + class
+		}})
+	}
+	return out
+}
+
 func Run(r *fw.Run) {
+	defer fw.FirstCallOrders(r, r.ID, FirstCalls(), nil)
 	scratch := r.Scratch()
 	r.Bounds["prefix_variants"] = prefixes
 	r.Bounds["paths"] = len(paths)
